@@ -1,4 +1,327 @@
 import FqModel.Proto
-/-! driver for C09 (stub — replaced by the property's own driver) -/
-open FqModel.Proto
-def main : IO Unit := run (fun _ _ => "BADOP driver-stub")
+import FqModel.Binary
+/-!
+  driver for C09.  Case lines (observations of one line are joined by " ; "):
+
+    ev <E>                 obs(E)
+    split <k> <B>          obs(B) ; obs([B[:k],B[k:]]|tobits) ; obs(B|tobits)
+    slsl <a> <b> <c> <d> <B>   obs(B) ; obs(B[a:b]) ; obs(B[a:b][c:d])          (a..d: integer or _)
+    pad <u> <n> <B>        obs(B|tobits) ; obs(B|to<u>(n)) ; obs(B|tonumber) ; obs(B|to<u>(n)|tonumber) ; obs(B|tobytes|tobits)
+    idx <i> <B>            obs(B) ; obs(B[i]) ; obs(B[i:][:1]|tonumber)
+    keys <B>               obs(B) ; .size ; .start ; .stop ; length ; .unit ; obs(B.bits) ; obs(B.bytes)
+    expl <B>               obs(B) ; obs(B|explode)
+    num <n>                obs(n|tobits) ; obs(n|tobits|tonumber) ; obs([n]|tobytes) ; obs(n|tobytes)
+    bad <V>                obs(V|tobits) ; obs(V|tobytes) ; obs([V]|tobytes) ; obs(V|to_hex) ; obs(V|tobytesrange)
+
+  E is an s-expression (see `toE`).  The verdict is PROPFAIL when the implementation's own observations
+  falsify the law (evaluated on the observations with plain list arithmetic, not with the model),
+  DIVERGE when they differ from the model's prediction.
+-/
+open FqModel FqModel.Binary FqModel.Proto
+
+inductive SX
+  | atom (s : String)
+  | list (xs : List SX)
+deriving Inhabited
+
+def tokenize (s : String) : List String :=
+  let (toks, cur) := s.toList.foldl (init := (([] : List String), "")) fun (acc, cur) c =>
+    if c == '(' || c == ')' then
+      ((if cur.isEmpty then acc else cur :: acc) |> (String.singleton c :: ·), "")
+    else if c == ' ' then ((if cur.isEmpty then acc else cur :: acc), "")
+    else (acc, cur.push c)
+  (if cur.isEmpty then toks else cur :: toks).reverse
+
+mutual
+partial def parseSX : List String → Option (SX × List String)
+  | [] => none
+  | "(" :: rest => do
+    let (xs, rest) ← parseSXs rest
+    pure (.list xs, rest)
+  | ")" :: _ => none
+  | a :: rest => some (.atom a, rest)
+partial def parseSXs : List String → Option (List SX × List String)
+  | [] => none
+  | ")" :: rest => some ([], rest)
+  | toks => do
+    let (x, rest) ← parseSX toks
+    let (xs, rest) ← parseSXs rest
+    pure (x :: xs, rest)
+end
+
+def optInt (s : String) : Option (Option Int) :=
+  if s == "_" then some none else s.toInt?.map some
+
+partial def toE : SX → Option E
+  | .list [.atom "s", .atom h] => (bytesOfHex h).map E.str
+  | .list [.atom "i", .atom n] => n.toInt?.map E.int
+  | .list [.atom "z"] => some .null
+  | .list [.atom "t"] => some (.bool true)
+  | .list [.atom "f"] => some (.bool false)
+  | .list [.atom "o"] => some .obj
+  | .list (.atom "a" :: xs) => (xs.mapM toE).map E.arr
+  | .list [.atom "dv", .atom h, .atom st, .atom ln, .atom _fmt, .atom _path] => do
+    let bytes ← bytesOfHex h
+    let st ← st.toNat?
+    let ln ← ln.toNat?
+    pure (.dv (bytesToBits bytes) st ln)
+  | .list [.atom "tobits", x] => (toE x).map (E.toBits 1 false 0)
+  | .list [.atom "tobytes", x] => (toE x).map (E.toBits 8 false 0)
+  | .list [.atom "tobitsr", x] => (toE x).map (E.toBits 1 true 0)
+  | .list [.atom "tobytesr", x] => (toE x).map (E.toBits 8 true 0)
+  | .list [.atom "tobitsn", .atom n, x] => do let n ← n.toInt?; (toE x).map (E.toBits 1 false n)
+  | .list [.atom "tobytesn", .atom n, x] => do let n ← n.toInt?; (toE x).map (E.toBits 8 false n)
+  | .list [.atom "idx", .atom i, x] => do let i ← i.toInt?; (toE x).map (E.index i)
+  | .list [.atom "sl", .atom a, .atom b, x] => do
+    let a ← optInt a
+    let b ← optInt b
+    (toE x).map (E.slice a b)
+  | .list [.atom "bits", x] => (toE x).map (E.key .bits)
+  | .list [.atom "bytes", x] => (toE x).map (E.key .bytes)
+  | .list [.atom "size", x] => (toE x).map (E.key .size)
+  | .list [.atom "start", x] => (toE x).map (E.key .start)
+  | .list [.atom "stop", x] => (toE x).map (E.key .stop)
+  | .list [.atom "unit", x] => (toE x).map (E.key .unit)
+  | .list [.atom "len", x] => (toE x).map E.length
+  | .list [.atom "num", x] => (toE x).map E.toNumber
+  | .list [.atom "str", x] => (toE x).map E.toString
+  | .list [.atom "expl", x] => (toE x).map E.explode
+  | .list [.atom "hex", x] => (toE x).map E.toHex
+  | _ => none
+
+def parseE (toks : List String) : Option E :=
+  match parseSX toks with
+  | some (sx, []) => toE sx
+  | _ => none
+
+/-! observations of the implementation, parsed back -/
+
+structure BObs where
+  unit : Nat
+  start : Nat
+  len : Nat
+  bits : Bits
+
+def parseB (s : String) : Option BObs :=
+  match s.splitOn ":" with
+  | ["b", u, st, ln, h] => do
+    let u ← u.toNat?
+    let st ← st.toNat?
+    let ln ← ln.toNat?
+    let bytes ← bytesOfHex h
+    let all := bytesToBits bytes
+    -- the hex is the range read through an IOReader: ceil(len/8) bytes, zero padded
+    if all.length != (ln + 7) / 8 * 8 then none
+    else if (all.drop ln).any id then none
+    else pure { unit := u, start := st, len := ln, bits := all.take ln }
+  | _ => none
+
+def parseN (s : String) : Option Int :=
+  match s.splitOn ":" with
+  | ["n", n] => n.toInt?
+  | _ => none
+
+/-- `a:[n:1,z,n:3]` → list of element observations (flat arrays only) -/
+def parseA (s : String) : Option (List String) :=
+  if s.startsWith "a:[" && s.endsWith "]" then
+    let inner := ((s.drop 3).dropEnd 1).toString
+    if inner.isEmpty then some [] else some (inner.splitOn ",")
+  else none
+
+def isErr (s : String) : Bool := s.startsWith "err:"
+
+def sep := " ; "
+
+def modelObs (es : List E) : String := sep.intercalate (es.map fun e => showOutcome (eval e))
+
+def finish (lawFail : Option String) (es : List E) (obs : String) : String :=
+  let m := modelObs es
+  if (m.splitOn "UNSUP").length > 1 then s!"BADOP model-unsupported {m}"
+  else
+    let div := if m == obs then "" else s!"DIVERGE model={m}"
+    match lawFail with
+    | some why => "PROPFAIL " ++ why ++ (if div.isEmpty then "" else " ;" ++ div)
+    | none => if div.isEmpty then "OK" else div
+
+/-- value of a bit string, reference semantics -/
+def refNum (bs : Bits) : Int := ofBitsBE bs
+
+def chunks (u : Nat) (bs : Bits) : Nat → List Bits
+  | 0 => []
+  | k+1 => bs.take u :: chunks u (bs.drop u) k
+
+def refClamp (i : Int) (lo hi : Int) : Int :=
+  let i := if i < 0 then i + hi else i
+  if i < lo then lo else if i < hi then i else hi
+
+def refSlice (b : BObs) (s e : Option Int) : BObs :=
+  let l : Int := b.len / b.unit
+  let st := match s with | some i => refClamp i 0 l | none => 0
+  let en := match e with | some i => refClamp i st l | none => l
+  { unit := b.unit, start := b.start + st.toNat * b.unit, len := (en - st).toNat * b.unit,
+    bits := (b.bits.drop (st.toNat * b.unit)).take ((en - st).toNat * b.unit) }
+
+def sameB (x y : BObs) : Bool := x.unit == y.unit && x.start == y.start && x.len == y.len && x.bits == y.bits
+
+def first? (cs : List (Bool × String)) : Option String :=
+  match cs.find? (fun c => !c.1) with
+  | some c => some c.2
+  | none => none
+
+def stepC09 (op obs : String) : String :=
+  let toks := tokenize op
+  let os := obs.splitOn sep
+  match toks with
+  | "ev" :: rest =>
+    match parseE rest with
+    | some e => finish none [e] obs
+    | none => "BADOP parse"
+  | "split" :: k :: rest =>
+    match k.toInt?, parseE rest with
+    | some k, some b =>
+      let es := [b, .toBits 1 false 0 (.arr [.slice none (some k) b, .slice (some k) none b]), .toBits 1 false 0 b]
+      let law : Option String :=
+        match os with
+        | [ob, oc, ot] =>
+          if isErr ob then (if isErr oc && isErr ot then none else some "error-not-propagated")
+          else match parseB ob, parseB oc, parseB ot with
+          | some pb, some pc, some pt =>
+            let reach := pb.len / pb.unit * pb.unit      -- bits reachable by index/slice
+            first? [(pt.bits == pb.bits, "tobits-changes-bits"),
+                    (pc.bits == pb.bits.take reach, "split-concat-differs"),
+                    (pc.unit == 1 && pc.start == 0 && pc.len == reach, "split-concat-shape")]
+          | _, _, _ => some "unparsable-observation"
+        | _ => some "arity"
+      finish law es obs
+    | _, _ => "BADOP parse"
+  | "slsl" :: a :: b :: c :: d :: rest =>
+    match optInt a, optInt b, optInt c, optInt d, parseE rest with
+    | some a, some b, some c, some d, some x =>
+      let es := [x, .slice a b x, .slice c d (.slice a b x)]
+      let law : Option String :=
+        match os with
+        | [ox, o1, o2] =>
+          if isErr ox then (if isErr o1 && isErr o2 then none else some "error-not-propagated")
+          else match parseB ox, parseB o1, parseB o2 with
+          | some px, some p1, some p2 =>
+            let r1 := refSlice px a b
+            let r2 := refSlice r1 c d
+            first? [(sameB p1 r1, "slice-differs-from-reference"), (sameB p2 r2, "slice-of-slice-differs-from-reference"),
+                    (p2.start ≥ p1.start && p2.start + p2.len ≤ p1.start + p1.len, "slice-escapes-parent")]
+          | _, _, _ => some "unparsable-observation"
+        | _ => some "arity"
+      finish law es obs
+    | _, _, _, _, _ => "BADOP parse"
+  | "pad" :: u :: n :: rest =>
+    match u.toNat?, n.toInt?, parseE rest with
+    | some u, some n, some x =>
+      let es := [.toBits 1 false 0 x, .toBits u false n x, .toNumber x, .toNumber (.toBits u false n x),
+                 .toBits 1 false 0 (.toBits 8 false 0 x)]
+      let law : Option String :=
+        match os with
+        | [ob, op, on, opn, obb] =>
+          if isErr ob then (if isErr op && isErr on && isErr opn && isErr obb then none else some "error-not-propagated")
+          else if n < 0 then none     -- negative padding: model correspondence only
+          else match parseB ob, parseB op, parseN on, parseN opn, parseB obb with
+          | some pb, some pp, some vn, some vpn, some pbb =>
+            let m := if u * n.toNat = 0 then u else u * n.toNat
+            let k := (m - pb.len % m) % m
+            first? [(pp.unit == u && pp.start == 0, "pad-shape"),
+                    (pp.len == pb.len + k && pp.len % m == 0, "pad-length"),
+                    (pp.bits == List.replicate k false ++ pb.bits, "pad-not-leading-zeros"),
+                    (vn == refNum pb.bits, "tonumber-differs-from-reference"),
+                    (vpn == vn, "padding-changes-number"),
+                    (pbb.len == (pb.len + 7) / 8 * 8 && pbb.bits.drop (pbb.len - pb.len) == pb.bits, "tobytes-tobits-length")]
+          | _, _, _, _, _ => some "unparsable-observation"
+        | _ => some "arity"
+      finish law es obs
+    | _, _, _ => "BADOP parse"
+  | "idx" :: i :: rest =>
+    match i.toInt?, parseE rest with
+    | some i, some x =>
+      let es := [x, .index i x, .toNumber (.slice none (some 1) (.slice (some i) none x))]
+      let law : Option String :=
+        match os with
+        | [ox, oi, osn] =>
+          if isErr ox then (if isErr oi && isErr osn then none else some "error-not-propagated")
+          else match parseB ox with
+          | some px =>
+            let l : Int := px.len / px.unit
+            let j := if i < 0 then i + l else i
+            if 0 ≤ j && j < l then
+              let r := refNum ((px.bits.drop (j.toNat * px.unit)).take px.unit)
+              first? [(parseN oi == some r, "index-differs-from-reference"), (parseN osn == some r, "index-is-not-slice-number")]
+            else first? [(oi == "z", "out-of-range-index-not-null")]
+          | none => some "unparsable-observation"
+        | _ => some "arity"
+      finish law es obs
+    | _, _ => "BADOP parse"
+  | "keys" :: rest =>
+    match parseE rest with
+    | some x =>
+      let es := [x, .key .size x, .key .start x, .key .stop x, .length x, .key .unit x, .key .bits x, .key .bytes x]
+      let law : Option String :=
+        match os with
+        | [ox, osz, ost, osp, ol, ou, obi, oby] =>
+          if isErr ox then (if [osz, ost, osp, ol, ou, obi, oby].all isErr then none else some "error-not-propagated")
+          else match parseB ox, parseN osz, parseN ost, parseN osp, parseN ol, parseN ou, parseB obi, parseB oby with
+          | some p, some sz, some st, some sp, some l, some u, some pbi, some pby =>
+            let stop := p.start + p.len
+            first? [(u == p.unit, "unit"), (sz == (p.len / p.unit : Nat), "size"), (l == sz, "length-vs-size"),
+                    (st == (p.start / p.unit : Nat), "start"),
+                    (sp == ((stop + p.unit - 1) / p.unit : Nat), "stop-not-rounded-up"),
+                    (st * p.unit ≤ p.start && (p.start : Int) < (st + 1) * p.unit, "start-not-floor"),
+                    (sp * p.unit ≥ stop && (sp - 1) * p.unit < (stop : Int) || (stop == 0 && sp == 0), "stop-not-ceil"),
+                    (sameB pbi { p with unit := 1 }, "bits-key"), (sameB pby { p with unit := 8 }, "bytes-key")]
+          | _, _, _, _, _, _, _, _ => some "unparsable-observation"
+        | _ => some "arity"
+      finish law es obs
+    | none => "BADOP parse"
+  | "expl" :: rest =>
+    match parseE rest with
+    | some x =>
+      let es := [x, .explode x]
+      let law : Option String :=
+        match os with
+        | [ox, oe] =>
+          if isErr ox then (if isErr oe then none else some "error-not-propagated")
+          else match parseB ox, parseA oe with
+          | some p, some els =>
+            let want := (chunks p.unit p.bits (p.len / p.unit)).map fun c => s!"n:{ofBitsBE c}"
+            first? [(els == want, "explode-differs-from-reference")]
+          | _, _ => some "unparsable-observation"
+        | _ => some "arity"
+      finish law es obs
+    | none => "BADOP parse"
+  | ["num", n] =>
+    match n.toInt? with
+    | some n =>
+      let es := [.toBits 1 false 0 (.int n), .toNumber (.toBits 1 false 0 (.int n)), .toBits 8 false 0 (.arr [.int n]),
+                 .toBits 8 false 0 (.int n)]
+      let law : Option String :=
+        match os with
+        | [ob, on, oa, oy] =>
+          let member := if n < 0 || n > 255 then oa == "err:byterange"
+            else match parseB oa with
+              | some pa => pa.unit == 8 && pa.len == 8 && ofBitsBE pa.bits == n.toNat
+              | none => false
+          first? [(member, "array-member-range"),
+                  (n < 0 || parseN on == some n, "number-roundtrip"),
+                  (n < 0 || (match parseB ob, parseB oy with
+                    | some pb, some py => ofBitsBE pb.bits == n.toNat && (pb.len == 1 || pb.bits.head? == some true)
+                        && ofBitsBE py.bits == n.toNat && py.len == (pb.len + 7) / 8 * 8
+                    | _, _ => false), "number-bits")]
+        | _ => some "arity"
+      finish law es obs
+    | none => "BADOP parse"
+  | "bad" :: rest =>
+    match parseE rest with
+    | some x =>
+      let es := [.toBits 1 false 0 x, .toBits 8 false 0 x, .toBits 8 false 0 (.arr [x]), .toHex x, .toBits 8 true 0 x]
+      let law : Option String :=
+        if os.length == 5 && os.all (· == "err:notbinary") then none else some "non-convertible-accepted"
+      finish law es obs
+    | none => "BADOP parse"
+  | _ => "BADOP op"
+
+def main : IO Unit := run stepC09
